@@ -4,11 +4,14 @@ package mcp
 
 import (
 	"context"
+	"encoding/json"
 	"io"
+	"reflect"
 	"sync/atomic"
 	"time"
 
 	"trpc.group/trpc-go/trpc-mcp-go/internal/retry"
+	"trpc.group/trpc-go/trpc-mcp-go/internal/schema"
 	"trpc.group/trpc-go/trpc-mcp-go/internal/sseutil"
 )
 
@@ -135,4 +138,24 @@ func VerifClientRetryConfig(c *Client) *VerifRetryConfig {
 	v := c.retryConfig
 	return &VerifRetryConfig{MaxRetries: v.MaxRetries, InitialBackoff: v.InitialBackoff,
 		BackoffFactor: v.BackoffFactor, MaxBackoff: v.MaxBackoff}
+}
+
+// VerifSchemaForType generates the input schema of the given style ("inline" | "defs" | "nested") for a run-time
+// type, as the JSON document a tool descriptor would carry.
+func VerifSchemaForType(t reflect.Type, style string) ([]byte, error) {
+	opts := schema.DefaultConverterOptions
+	switch style {
+	case "inline":
+		opts.RefStyle = schema.RefStyleInline
+	case "defs":
+		opts.RefStyle = schema.RefStyleDefs
+	case "nested":
+		opts.RefStyle = schema.RefStyleNested
+	}
+	return json.Marshal(schema.VerifSchemaForType(t, opts))
+}
+
+// VerifBindArguments is the argument binding of typed tool handlers.
+func VerifBindArguments(arguments map[string]interface{}, target interface{}) error {
+	return bindArguments(arguments, target)
 }
